@@ -82,7 +82,27 @@ class Check(PropertyCheck):
             lines.append("fobs " + k)
         tr = gen.Tracker(jobs)
         n_acc = 0
-        if rng.random() < 0.15:
+        if rng.random() < 0.12:
+            # helper observers that were subscribed once and then unsubscribed (before, or after some dispatches): the updater
+            # attached later must not pick up an observer that is no longer notified
+            pre = rng.sample(["is_completed mj", "is_completed -", "remaining_operations -", "unscheduled -"], rng.randint(1, 2))
+            n_before = sum(1 for l in lines if l.startswith("fobs"))
+            for k in pre:
+                lines.append("fobs " + k)
+            for _ in range(rng.randint(0, 2)):
+                if tr.done():
+                    break
+                j, p, m = gen.gen_valid_request(rng, tr)
+                tr.take(j)
+                lines.append(f"disp {j} {p} {m}")
+            lines.append("fsnap")
+            for idx in range(rng.randint(1, 3)):
+                lines.append(f"funsub {rng.randint(0, n_before + 3)}")
+            if any(l.startswith("disp") for l in lines) or rng.random() < 0.3:
+                # (the updater itself is attached at the start of an episode: attached mid-episode it starts from the full graph)
+                lines.append("reset")
+                tr.reset()
+        elif rng.random() < 0.15:
             # the observers the updater will reuse are created in the middle of an earlier episode; the updater itself is
             # attached after the reset, before the first dispatch of the next episode
             for _ in range(rng.randint(1, max(1, gen.num_ops(jobs) - 1))):
